@@ -71,10 +71,12 @@ func execute(t *testing.T, cfg Config, c bubble.Chooser, strict bool) execOut {
 	chanDeadlock, predicted := "", ""
 	out := bubble.Run(t, bubble.Options{Strict: strict}, func(s *bubble.Sched) {
 		w = build(cfg, s)
-		s.OnDrain(w.ctx.Stop)
-		for _, n := range w.nestedCtx {
-			s.OnDrain(n.Stop)
-		}
+		s.OnDrain(func() {
+			w.ctx.Stop() // first the outer context (its cleanup stops the nested one) ...
+			for _, n := range w.nestedCtx {
+				n.Stop() // ... then the nested context, in case the outer run never started
+			}
+		})
 		runs := 1
 		if cfg.SecondRun {
 			runs = 2
@@ -138,7 +140,9 @@ func execute(t *testing.T, cfg Config, c bubble.Chooser, strict bool) execOut {
 				case "start", "between":
 					return true
 				case "close":
-					return closesThisRun() >= w.rParking // the last parked Close: Run's finaliser takes the lock next
+					return cfg.Mix != "nested" && closesThisRun() >= w.rParking // the last parked Close: Run's finaliser takes the lock next
+				case "closed":
+					return true
 				}
 				return false
 			}
@@ -212,9 +216,30 @@ func execute(t *testing.T, cfg Config, c bubble.Chooser, strict bool) execOut {
 			s.Grant(m.Th)
 		}
 		evs = w.log.Events()
+		// Teardown, after the verdict of this execution: stop the context and let every thread finish under
+		// the driver's control.  Whenever a Stop call is stuck on the full requestExit channel while holding
+		// runStateLock (the defect this check reports) it is let through with the teardown seam, so that the
+		// bubble can drain instead of running into the mutex deadlock again.
+		s.Go("teardown-stop", w.ctx.Stop)
+		for i := 0; i < 4*maxSteps; i++ {
+			s.Settle()
+			for j := 0; j < 4 && w.ctx.VerifRunStateLockHeld(); j++ {
+				w.ctx.VerifDrainRequestExit()
+				s.Settle()
+			}
+			ps := s.ParkedThreads()
+			if len(ps) == 0 {
+				if len(s.Blocked()) == 0 || !s.AdvanceTime() {
+					break
+				}
+				continue
+			}
+			next := ps[len(ps)-1] // the teardown Stop first, then the most recently created threads
+			s.Grant(next)
+		}
 	})
-	if out.Hang != nil {
-		if out.Hang.Deadlock && !out.Hang.Draining {
+	if out.Hang != nil && !out.Hang.Draining {
+		if out.Hang.Deadlock {
 			key := "deadlock/channel-wait"
 			if out.Hang.Mutex {
 				key = keyMutexDeadlock
@@ -226,10 +251,15 @@ func execute(t *testing.T, cfg Config, c bubble.Chooser, strict bool) execOut {
 		res.discard = "hang:" + out.Hang.Reason
 		return res
 	}
+	res.detail = renderEvents(evs)
+	if f := w.judgeSecondRun(evs); f != nil {
+		res.capped = false
+		res.fail = f
+		return res
+	}
 	if res.capped {
 		return res
 	}
-	res.detail = renderEvents(evs)
 	if predicted != "" {
 		res.suspect = &Failure{keyMutexDeadlock, "Run's finaliser needs runStateLock while a Stop call holds it, blocked on the full requestExit channel: " + predicted}
 		return res
@@ -271,7 +301,9 @@ func outcomeOf(w *world, evs []bubble.Event) string {
 				b.WriteString("c ")
 			}
 		case "close":
-			b.WriteString("x ")
+			if !(w.cfg.Mix == "nested" && e.Res == "a") {
+				b.WriteString("x ")
+			}
 		case "stop-call":
 			b.WriteString("S ")
 		case "stop-ret":
@@ -353,6 +385,7 @@ type taskOut struct {
 
 func runConfig(t *testing.T, cfg Config, deadline time.Time) taskOut {
 	o := taskOut{Cfg: cfg.Name()}
+	leakedBefore := bubble.Leaked()
 	var mu sync.Mutex
 	sink := func(r execOut, choices []int) {
 		mu.Lock()
@@ -373,7 +406,7 @@ func runConfig(t *testing.T, cfg Config, deadline time.Time) taskOut {
 	st := explore.Run(body(t, cfg, false, sink), explore.Options{Workers: 1, Deadline: deadline, MaxDepth: 2000, PanicIsBug: true, Samples: 2, MaxViol: 6})
 	o.Executions, o.Points, o.Divergences, o.Outcomes = st.Executions, st.Points, st.Divergences, st.Outcomes
 	o.Exhaustive, o.CapHit, o.WallS = st.Exhaustive, st.CapHit, st.WallS
-	o.Leaked = bubble.Leaked()
+	o.Leaked = bubble.Leaked() - leakedBefore
 	if len(st.Samples) > 0 {
 		o.Sample = &st.Samples[len(st.Samples)-1]
 	}
@@ -561,27 +594,27 @@ func TestCheck(t *testing.T) {
 			exhaustive = false
 		}
 		cov := map[string]any{
-			"evaluations":                  evals,
-			"distinct_nontrivial":          distinct,
-			"rule":                         "one evaluation = one complete schedule (one synctest bubble) of one configuration; distinct = distinct (configuration, interleaving of section begins/commits, Close calls, Stop calls/returns and Run calls/returns, class of Run's results)",
-			"samples":                      samples,
-			"exhaustive":                   exhaustive,
-			"configurations":               len(tasks),
-			"configurations_done":          done,
-			"executions_by_ending":         byEnd,
-			"executions_by_resource_mix":   byMix,
-			"choice_points":                points,
-			"divergences":                  diverg,
-			"discarded_runs":               discards,
-			"step_capped_runs":             capped,
-			"caps_hit":                     caps,
-			"workers_died":                 died,
-			"violation_keys_seen":          kinds,
-			"suspected_mutex_deadlocks":    suspected,
-			"strict_confirmations":         confirm,
-			"leaked_bubbles":               leakedB + bubble.Leaked(),
-			"shard_workers":                env.Workers,
-			"bounds":                       "endings {Done, Stop only, assertion, Error label, resource error in body, resource error in PreCommit} x resource mixes {2 plain, plain with failing Close, IncMap with realised elements, HashMap with 3 configured elements, nested-archetype resource with an instrumented inner resource} x 0-3 Stop callers started at every scheduling point (before Run, at each section start, inside each Close, after Run, around a second Run) x with/without a second Run call (quick: second Run on the plain and IncMap mixes, 3 Stop callers on failing endings only with the plain mix); every interleaving, no preemption bound",
+			"evaluations":                evals,
+			"distinct_nontrivial":        distinct,
+			"rule":                       "one evaluation = one complete schedule (one synctest bubble) of one configuration; distinct = distinct (configuration, interleaving of section begins/commits, Close calls, Stop calls/returns and Run calls/returns, class of Run's results)",
+			"samples":                    samples,
+			"exhaustive":                 exhaustive,
+			"configurations":             len(tasks),
+			"configurations_done":        done,
+			"executions_by_ending":       byEnd,
+			"executions_by_resource_mix": byMix,
+			"choice_points":              points,
+			"divergences":                diverg,
+			"discarded_runs":             discards,
+			"step_capped_runs":           capped,
+			"caps_hit":                   caps,
+			"workers_died":               died,
+			"violation_keys_seen":        kinds,
+			"suspected_mutex_deadlocks":  suspected,
+			"strict_confirmations":       confirm,
+			"leaked_bubbles":             leakedB + bubble.Leaked(),
+			"shard_workers":              env.Workers,
+			"bounds":                     "endings {Done, Stop only, assertion, Error label, resource error in body, resource error in PreCommit} x resource mixes {2 plain, plain with failing Close, IncMap with realised elements, HashMap with 3 configured elements, nested-archetype resource with an instrumented inner resource} x 0-3 Stop callers started at every scheduling point (before Run, at each section start, inside each Close, after Run, around a second Run) x with/without a second Run call (quick: second Run on the plain and IncMap mixes, 3 Stop callers on failing endings only with the plain mix); every interleaving, no preemption bound",
 		}
 		if len(samples) == 0 {
 			cov["samples"] = []any{"(no sample of the selected shapes)"}
@@ -689,7 +722,7 @@ func TestRaceBodies(t *testing.T) {
 	cfgs := configs(false)
 	for r := 0; r < rounds; r++ {
 		for _, cfg := range cfgs {
-			if cfg.NoRun || (r%4 != 0 && cfg.Stops < 2) {
+			if cfg.NoRun || (r%4 != 0 && cfg.Stops < 2) || (cfg.SecondRun && cfg.End == "loop") {
 				continue
 			}
 			w := build(cfg, nil)
